@@ -97,6 +97,16 @@ CHECKS.update({
         ref="DESIGN.md section 2 C20"),
 })
 
+CHECKS.update({
+    "C13": dict(
+        technique="runtime monitoring: postcondition monitors on to_linear/to_circular/to_stokes/to_intensity against an independent "
+                  "complex128 evaluation of the documented 2x2 unitary and Stokes formulas; trace checks for round trips, basis "
+                  "independence and component access across in-place modification",
+        text="Exploration: every conversion call in a workload of generic complex samples (12 decades, zeros, purely real/imaginary), "
+             "both bases, both widths, trailing dimensions and both backends is compared sample by sample with the formulas.",
+        ref="DESIGN.md section 2 C13"),
+})
+
 NOT_YET = {}
 
 
